@@ -5,10 +5,48 @@ package receiver
 // Contracts checked by /verif (lsvc). This file contains comments only and is
 // compiled only with the build tag "verif".
 
+// Lock discipline (C17): the fields the struct comment lists as protected are
+// only read or written with Receiver.mu held; every function leaves the mutex
+// as it found it on every path; no mutex is locked twice by one goroutine.
+//@ immutable Downloader.r
+//@ guarded Receiver.snapshotsByInstance, Receiver.lastSeenByInstance, Receiver.downloadersByInstance, Receiver.hasSnapshots, Receiver.corruptSnapshots by Receiver.mu
+
 //@ func (r *Receiver) MarkCorrupt
+//@   requires lock_free_on_entry: !held(r.mu)
 //@   trusted
 //@   pure
+//@   lockcheck
 //@   ghost ncorrupt := ghost_ncorrupt + 1
+//@ func (r *Receiver) Next
+//@   requires lock_free_on_entry: !held(r.mu)
+//@   lockcheck
+//@   modifies *
+//@ func (r *Receiver) HasSnapshots
+//@   requires lock_free_on_entry: !held(r.mu)
+//@   lockcheck
+//@   modifies *
+//@ func (r *Receiver) SeenInstances
+//@   requires lock_free_on_entry: !held(r.mu)
+//@   lockcheck
+//@   modifies *
+//@ func (r *Receiver) RunOnce
+//@   requires lock_free_on_entry: !held(r.mu)
+//@   lockcheck
+//@   modifies *
+//@ func (r *Receiver) getDownloader
+//@   requires lock_free_on_entry: !held(r.mu)
+//@   lockcheck
+//@   modifies *
+//@ func (r *Receiver) getDownloader$1
+//@   goroutine
+//@   lockcheck
+//@   modifies *
+//@ func (d *Downloader) Run
+//@   requires lock_free_on_entry: !held(d.r.mu)
+//@   lockcheck
+//@   modifies *
+//@   loop 0 invariant lock_free: !held(d.r.mu)
+//@   loop 1 invariant lock_free: !held(d.r.mu)
 
 // Token accounting of one download (ghost_held: tokens acquired and not
 // released): on every error path both tokens are released; on success exactly
@@ -16,7 +54,9 @@ package receiver
 // (its OnClose releases it). An undecodable blob is marked corrupt and
 // remembered as handled so that it is not retried for ever.
 //@ func (d *Downloader) LoadOnce
+//@   requires lock_free_on_entry: !held(d.r.mu)
 //@   modifies *
+//@   lockcheck
 //@   ensures tokens: ghost_held == old(ghost_held) + ite(r0 == nil, 1, 0)
 //@   ensures corrupt_remembered: ghost_ncorrupt > old(ghost_ncorrupt) ==> r0 != nil && d.last.FullName == ni.FullName
 //@   at_call receiver.(*Receiver).MarkCorrupt#0 assert decompress_token_released: ghost_held == old(ghost_held) + 1
